@@ -103,6 +103,86 @@ class _SwapIf(ast.NodeTransformer):
         return ast.copy_location(ast.IfExp(test=test, body=node.orelse, orelse=node.body), node)
 
 
+_TERM = (ast.Return, ast.Raise, ast.Continue, ast.Break)
+
+
+def _terminates(stmts):
+    if not stmts:
+        return False
+    last = stmts[-1]
+    if isinstance(last, _TERM):
+        return True
+    if isinstance(last, ast.If):
+        return _terminates(last.body) and _terminates(last.orelse)
+    return False
+
+
+def _map_blocks(node, fn):
+    """Apply fn(list of statements) -> list to every statement list below node (innermost first)."""
+    for field in ('body', 'orelse', 'finalbody'):
+        blk = getattr(node, field, None)
+        if isinstance(blk, list) and blk and isinstance(blk[0], ast.stmt):
+            for s in blk:
+                if not isinstance(s, (ast.FunctionDef, ast.ClassDef)):
+                    _map_blocks(s, fn)
+            setattr(node, field, fn(blk))
+    for h in getattr(node, 'handlers', []) or []:
+        for s in h.body:
+            _map_blocks(s, fn)
+        h.body = fn(h.body)
+
+
+def _guard(stmts):
+    """if c: <terminates> else: B   ->   if c: <terminates> ; B"""
+    out = []
+    for s in stmts:
+        if isinstance(s, ast.If) and s.orelse and _terminates(s.body):
+            rest = s.orelse
+            s.orelse = []
+            out.append(s)
+            out += rest
+        else:
+            out.append(s)
+    return out
+
+
+def _unguard(stmts):
+    """if c: <terminates> ; rest   ->   if c: <terminates> else: rest"""
+    for i, s in enumerate(stmts):
+        if isinstance(s, ast.If) and not s.orelse and _terminates(s.body) and stmts[i + 1:]:
+            s.orelse = _unguard(stmts[i + 1:])
+            return stmts[:i + 1]
+    return stmts
+
+
+def _retvar(stmts):
+    """return E   ->   result_ = E ; return result_"""
+    out = []
+    for s in stmts:
+        if isinstance(s, ast.Return) and s.value is not None and not isinstance(s.value, (ast.Name, ast.Constant)):
+            out.append(ast.Assign(targets=[ast.Name(id='result_', ctx=ast.Store())], value=s.value))
+            out.append(ast.Return(value=ast.Name(id='result_', ctx=ast.Load())))
+        else:
+            out.append(s)
+    return out
+
+
+def _splitand(stmts):
+    """if a and b: X (no else)   ->   if a: if b: X"""
+    out = []
+    for s in stmts:
+        if isinstance(s, ast.If) and not s.orelse and isinstance(s.test, ast.BoolOp) and isinstance(s.test.op, ast.And):
+            vals = s.test.values
+            inner = ast.If(test=vals[-1] if len(vals) == 2 else ast.BoolOp(op=ast.And(), values=vals[1:]), body=s.body, orelse=[])
+            out.append(ast.If(test=vals[0], body=[inner], orelse=[]))
+        else:
+            out.append(s)
+    return out
+
+
+_BLOCK = {'guard': _guard, 'unguard': _unguard, 'retvar': _retvar, 'splitand': _splitand}
+
+
 def _find(tree, qual):
     body, target = tree.body, None
     for p in qual.split('.'):
@@ -125,6 +205,14 @@ def transform(src_text, qual, kind):
     if target is None:
         return None
     before = ast.unparse(target)
+    if kind in _BLOCK:
+        if any(isinstance(n, (ast.Yield, ast.YieldFrom)) for n in ast.walk(target)) and kind == 'retvar':
+            return None
+        _map_blocks(target, _BLOCK[kind])
+        ast.fix_missing_locations(tree)
+        if ast.unparse(target) == before:
+            return None
+        return ast.unparse(tree)
     t = _FlipCmp() if kind == 'flipcmp' else _SwapIf()
     doc = target.body[:1] if target.body and isinstance(target.body[0], ast.Expr) and isinstance(getattr(target.body[0], 'value', None), ast.Constant) else []
     target.body = doc + [t.visit(s) for s in target.body[len(doc):]]
